@@ -3,7 +3,9 @@
    harness/df_common.canon produces from pandas objects), and the comparison with what the real code emitted.
    No proofs here; generated case files import this. *)
 From Coq Require Import List ZArith QArith Qabs Qcanon Bool Lia.
-From SZ Require Import DF.Frames DF.Agg DF.GroupBy.
+From SZ Require Import DF.Frames.
+From SZ Require Import DF.Agg.
+From SZ Require Import DF.GroupBy.
 Import ListNotations.
 Local Open Scope Qc_scope.
 
